@@ -30,6 +30,8 @@ pub struct Case {
     pub label: String,
     /// preferred wrap column (seeds are written for narrow widths)
     pub wrap_hint: Option<u32>,
+    /// what the generator knows about the case (expectations travel with the behaviour)
+    pub meta: Value,
 }
 
 pub trait Suite {
@@ -64,6 +66,7 @@ impl Suite for Soup {
             well_formed: false,
             label: format!("soup#{i}"),
             wrap_hint: None,
+            meta: Value::Null,
         }
     }
 }
@@ -97,7 +100,7 @@ impl Suite for SoupWalk {
             }
             text.push_str(&self.alphabet[rng.gen_range(0..self.alphabet.len())]);
         }
-        Case { text, well_formed: false, label: format!("walk#{i}"), wrap_hint: None }
+        Case { text, well_formed: false, label: format!("walk#{i}"), wrap_hint: None, meta: Value::Null }
     }
 }
 
@@ -113,7 +116,7 @@ impl Suite for Seeds {
     }
     fn get(&self, i: u64) -> Case {
         let s = &self.seeds[i as usize];
-        Case { text: s.text.clone(), well_formed: true, label: s.name.clone(), wrap_hint: Some(s.wrap) }
+        Case { text: s.text.clone(), well_formed: true, label: s.name.clone(), wrap_hint: Some(s.wrap), meta: Value::Null }
     }
 }
 
@@ -146,7 +149,7 @@ impl Suite for Truncations {
     fn get(&self, i: u64) -> Case {
         let (si, cut) = self.items[i as usize];
         let s = &self.seeds[si];
-        Case { text: s.text[..cut].to_string(), well_formed: false, label: format!("{}@{}", s.name, cut), wrap_hint: Some(s.wrap) }
+        Case { text: s.text[..cut].to_string(), well_formed: false, label: format!("{}@{}", s.name, cut), wrap_hint: Some(s.wrap), meta: Value::Null }
     }
 }
 
@@ -176,13 +179,13 @@ impl Suite for Splices {
         let mut text = a.text[..ca].to_string();
         text.push(if rng.gen_bool(0.5) { ' ' } else { '\n' });
         text.push_str(&b.text[cb..]);
-        Case { text, well_formed: false, label: format!("{}@{}+{}@{}", a.name, ca, b.name, cb), wrap_hint: None }
+        Case { text, well_formed: false, label: format!("{}@{}+{}@{}", a.name, ca, b.name, cb), wrap_hint: None, meta: Value::Null }
     }
 }
 
 /// A list of texts handed over as data (e.g. printed by TLC).
 pub struct Texts {
-    pub items: Vec<(String, bool, String)>,
+    pub items: Vec<(String, bool, String, Value)>,
 }
 
 impl Suite for Texts {
@@ -190,8 +193,8 @@ impl Suite for Texts {
         self.items.len() as u64
     }
     fn get(&self, i: u64) -> Case {
-        let (t, wf, l) = &self.items[i as usize];
-        Case { text: t.clone(), well_formed: *wf, label: l.clone(), wrap_hint: None }
+        let (t, wf, l, m) = &self.items[i as usize];
+        Case { text: t.clone(), well_formed: *wf, label: l.clone(), wrap_hint: None, meta: m.clone() }
     }
 }
 
@@ -302,4 +305,130 @@ pub fn cursor_offsets(text: &str, toks: &[Tok], limit: usize) -> Vec<u32> {
         v = w;
     }
     v.into_iter().map(|o| o.min(u32::MAX as usize) as u32).collect()
+}
+
+// ------------------------------------------------------------------ C13: the length / remaining / delimiter grid
+
+/// word kind x length x bytes remaining after the word x offset of leading code x delimiter.
+/// The generator knows where the word starts and ends and what it must be.
+pub struct Grid {
+    pub kinds: Vec<String>,
+    pub lens: Vec<usize>,
+    pub rems: Vec<usize>,
+    pub offsets: Vec<usize>,
+    pub delims: Vec<String>,
+    pub tails: Vec<String>,
+}
+
+const IDENT_CHARS: &[u8] = b"abcdefghijklmnopqrstuvwxyzABCDEFGHIJKLMNOPQRSTUVWXYZ0123456789_";
+
+pub fn grid_word(kind: &str, len: usize) -> Option<(String, &'static str)> {
+    // returns (word, expected kind); None if the kind has no word of that length
+    let pat = |set: &[u8], n: usize, salt: usize| -> String { (0..n).map(|i| set[(i * 7 + salt * 13 + n) % set.len()] as char).collect() };
+    match kind {
+        "ident" => {
+            let mut w = String::from("q");
+            w.push_str(&pat(IDENT_CHARS, len.saturating_sub(1), 1));
+            if len == 0 { return None; }
+            if crate::mon::is_keyword_word(&w) { w.replace_range(0..1, "Q_"); w.truncate(len.max(2)); }
+            Some((w, "Identifier"))
+        }
+        "ident_" => {
+            if len == 0 { return None; }
+            let mut w = String::from("_");
+            w.push_str(&pat(IDENT_CHARS, len - 1, 2));
+            Some((w, "Identifier"))
+        }
+        "uident" => {
+            // identifier with non-ASCII characters (2-, 3- and 4-byte) spread through it; len counts code points
+            if len == 0 { return None; }
+            let mut w = String::new();
+            for i in 0..len {
+                w.push(match (i + len) % 11 { 3 => 'é', 6 => '変', 9 => '😃', k => IDENT_CHARS[(i * 5 + k) % 52] as char });
+            }
+            if !w.chars().next().unwrap().is_alphabetic() || w.is_ascii() && crate::mon::is_keyword_word(&w) { w.insert(0, 'z'); }
+            Some((w, "Identifier"))
+        }
+        "keyword" => {
+            let kw = ["as", "end", "type", "begin", "record", "finally", "function", "procedure", "destructor", "constructor", "finalization", "dispinterface", "implementation"];
+            kw.iter().find(|k| k.len() == len).map(|k| {
+                let w: String = k.chars().enumerate().map(|(i, c)| if (i + len) % 2 == 0 { c.to_ascii_uppercase() } else { c }).collect();
+                (w, "KEYWORD")
+            })
+        }
+        "kwsuffix" => {
+            if len < 6 { return None; }
+            let mut w = String::from("begin");
+            w.push_str(&pat(IDENT_CHARS, len - 5, 3));
+            Some((w, "Identifier"))
+        }
+        "decimal" => {
+            if len == 0 { return None; }
+            let mut w = String::from("7");
+            w.push_str(&pat(b"0123456789_", len - 1, 4));
+            Some((w, "NumberLiteral(Decimal)"))
+        }
+        "hex" => {
+            if len < 2 { return None; }
+            let mut w = String::from("$");
+            w.push_str(&pat(b"0123456789abcdefABCDEF_", len - 1, 5));
+            Some((w, "NumberLiteral(Hex)"))
+        }
+        "binary" => {
+            if len < 2 { return None; }
+            let mut w = String::from("%");
+            w.push_str(&pat(b"01_", len - 1, 6));
+            Some((w, "NumberLiteral(Binary)"))
+        }
+        _ => None,
+    }
+}
+
+impl Suite for Grid {
+    fn len(&self) -> u64 {
+        (self.kinds.len() * self.lens.len() * self.rems.len() * self.offsets.len() * self.delims.len() * self.tails.len()) as u64
+    }
+    fn get(&self, i: u64) -> Case {
+        let mut k = i as usize;
+        let mut pick = |n: usize| { let r = k % n; k /= n; r };
+        let tail_kind = &self.tails[pick(self.tails.len())];
+        let delim = &self.delims[pick(self.delims.len())];
+        let off = self.offsets[pick(self.offsets.len())];
+        let rem = self.rems[pick(self.rems.len())];
+        let len = self.lens[pick(self.lens.len())];
+        let kind = &self.kinds[pick(self.kinds.len())];
+        let Some((word, expect)) = grid_word(kind, len) else {
+            return Case { text: String::new(), well_formed: false, label: format!("grid#{i}:skip"), wrap_hint: None, meta: Value::Null };
+        };
+        // leading code of exactly `off` bytes, ending in a separator
+        let lead_src = "x := y + 1; ";
+        let mut text: String = lead_src.chars().cycle().take(off.saturating_sub(1)).collect();
+        if off > 0 {
+            text.push(' ');
+        }
+        let start = text.len();
+        text.push_str(&word);
+        let end = text.len();
+        // the tail: delimiter first, then filler up to `rem` bytes after the word
+        let mut tail = String::new();
+        if rem > 0 {
+            tail.push_str(delim);
+            let filler: &str = match tail_kind.as_str() { "spaces" => " ", "code" => "; y := 1 ", "nonascii" => "é ", _ => " " };
+            let mut it = filler.chars().cycle();
+            while tail.len() < rem {
+                tail.push(it.next().unwrap());
+            }
+        }
+        text.push_str(&tail);
+        // numbers: a delimiter that continues the literal makes the expectation void
+        let d0 = tail.chars().next();
+        let continues = match (*kind).as_str() {
+            "decimal" => matches!(d0, Some('.' | 'e' | 'E' | '_' | '0'..='9')),
+            "hex" => matches!(d0, Some('0'..='9' | 'a'..='f' | 'A'..='F' | '_')),
+            "binary" => matches!(d0, Some('0' | '1' | '_')),
+            _ => d0.is_some_and(|c| c.is_ascii_alphanumeric() || c == '_' || (c as u32 >= 128 && c != '\u{3000}')),
+        };
+        let meta = if continues { Value::Null } else { serde_json::json!({"grid": {"start": start, "end": end, "kind": expect, "wordkind": kind}}) };
+        Case { text, well_formed: false, label: format!("grid#{i}:{kind}:len{len}:rem{rem}:off{off}"), wrap_hint: None, meta }
+    }
 }
